@@ -9,6 +9,14 @@ with `<ast>` the neutral miniscript AST of Driver/AstParse.lean and `<k>` a key 
   C spk|explicit|scriptcode|unsignedss <desc>      model accessor over the `D key` tables, with the
                                                    REAL sha256/hash160 of Spec/Hash.lean (`ERR` = Err)
   C addrspk <desc>                                 script_pubkey of the model's address payload
+  C addrstr <desc> <net>                           the model's address STRING (Base58Check / Bech32(m) in Lean)
+  C trspk <desc> <root|-> <outkey>                 tr: the model computes the BIP341 Merkle root (C15 model of
+                                                   TrSpendInfo::from_tr, real tagged SHA-256); `<root> -> <outkey>`
+                                                   is the elliptic-curve tweak done by rust-bitcoin (the only oracle);
+                                                   answer: p2tr(outkey) if the roots agree, `ROOT:<model root>` otherwise
+  J addrspec <type> <net> <hex data> <address>     the library's `Address::to_string()` is the specification's address
+                                                   of the output (Spec/Address.lean) AND decodes (Lean Base58Check /
+                                                   Bech32(m) decoder) to the expected network class / hrp and payload
   J outspec <type> <hex data> <spk> <explicit> <scriptcode> <unsignedss>
         the IMPLEMENTATION's four answers are judged by Spec/Outputs.lean for the output that
         commits to `<hex data>` (pubkey for pkh/wpkh/shwpkh, explicit script otherwise)
@@ -31,6 +39,7 @@ normal indices), `PANIC` for an `unreachable!()` arm.
 -/
 import MsVerif.Driver.OpsMs
 import MsVerif.Model.Descriptor
+import MsVerif.Spec.Bip341
 
 namespace MsVerif.Driver.DescOps
 open MsVerif MsVerif.Driver MsVerif.Desc MsVerif.Keys MsVerif.Bip32 MsVerif.Outputs
@@ -103,6 +112,22 @@ def isTr : Desc → Bool
 def hexOrErr : Option Bytes → String
   | some b => Hash.toHexW b
   | none => "ERR"
+
+def parseNet : String → Option Network
+  | "bitcoin" => some .bitcoin | "testnet" => some .testnet | "testnet4" => some .testnet4
+  | "signet" => some .signet | "regtest" => some .regtest | _ => none
+
+/-- decode an address string with the Lean decoders and compare with what the output commits to -/
+def addrDecodesTo (H : Hashes) (net : Address.Net) (o : Output) (s : String) : Bool :=
+  match o with
+  | .bare _ => false
+  | .pkh pk => Address.decodeLegacy s == some (net.cls, .p2pkh, H.hash160 pk)
+  | .sh rs => Address.decodeLegacy s == some (net.cls, .p2sh, H.hash160 rs)
+  | .shWpkh pk => Address.decodeLegacy s == some (net.cls, .p2sh, H.hash160 (p2wpkh (H.hash160 pk)))
+  | .shWsh ws => Address.decodeLegacy s == some (net.cls, .p2sh, H.hash160 (p2wsh (H.sha256 ws)))
+  | .wpkh pk => Address.decodeSegwit s == some (net.hrp, 0, H.hash160 pk)
+  | .wsh ws => Address.decodeSegwit s == some (net.hrp, 0, H.sha256 ws)
+  | .tr k => Address.decodeSegwit s == some (net.hrp, 1, k)
 
 def parseOutput (ty : String) (data : Bytes) : Option Output :=
   match ty with
@@ -252,6 +277,27 @@ def opsDesc (t : Tables) (kind op : String) (args : List String) : Option String
       match d.address P .bitcoin with
       | some (_, p) => Hash.toHexW p.scriptPubkey
       | none => "ERR")
+  | "C", "addrstr", [d, net] => do
+    let d ← parseDesc d; let net ← parseNet net
+    pure (if isTr d then "TR" else (d.addressString P net).getD "ERR")
+  | "C", "trspk", [d, root, outkey] => do
+    let d ← parseDesc d; let outkey ← Hash.ofHex outkey
+    match d with
+    | .tr ik leaves =>
+      -- run the C15 model with the identity "tweak": the output key slot then holds the Merkle root
+      match Tap.SpendInfo.fromTr (ω := Option Bytes) Bip341.alg (fun _ r => r) (P.env.ser ik)
+          (if leaves.isEmpty then none else some (trLeafScripts P leaves)) with
+      | none => pure "PANIC"
+      | some si =>
+        let mine := match si.outputKey with | some r => Hash.toHex r | none => "-"
+        pure (if mine == root then Hash.toHexW (Script.serialize [.small 1, .push outkey]) else "ROOT:" ++ mine)
+    | _ => none
+  | "J", "addrspec", [ty, net, data, addr] => do
+    let data ← Hash.ofHex data; let o ← parseOutput ty data; let net ← parseNet net
+    let enc := Address.addressOfOutput P.H net.toSpec o
+    let bad := (if enc != some addr then ["encode"] else [])
+      ++ (if addrDecodesTo P.H net.toSpec o addr then [] else ["decode"])
+    pure (if bad.isEmpty then "ok" else "bad:" ++ ",".intercalate bad)
   | "J", "outspec", [ty, data, spk, expl, code, uss] => do
     let data ← Hash.ofHex data
     let o ← parseOutput ty data
